@@ -171,7 +171,10 @@ def check(resources):
     ZConfig, MemLoader, sch = _zc()
     shared = MemLoader(sch)
     got1 = load(resources, loader=shared)
-    got2 = load(resources, loader=shared)
+    import warnings
+    with warnings.catch_warnings():
+        warnings.simplefilter("error")          # a load has nothing to warn about
+        got2 = load(resources, loader=shared)
     if got1 != got2:
         out.append(("second-load-differs", "%r then %r (same loader object)" % (got1, got2)))
     for p in PROBE:
